@@ -99,6 +99,7 @@ class R1(object):
         self.ue_site = {}  # fn -> {cell: witness path (list of str)}
         self.mayw = {}
         self.mw_status = {}
+        self._simple = {}
         self.guard_support = {}
         self.handler_blocks = {}
         self._mayw()
@@ -112,6 +113,8 @@ class R1(object):
             return ("fld", fl)
         if p.root[0] == "g":
             return ("g", p.root[1])
+        if p.root[0] == "alloca" and not p.steps:
+            return ("al", f.name, p.root[1])
         return None
 
     def _mayw(self):
@@ -160,6 +163,9 @@ class R1(object):
             base = "@" + r[1]
             if not p.steps:
                 sup.add(("g", r[1]))
+        elif r[0] == "alloca" and not p.steps:
+            sup.add(("al", f.name, r[1]))
+            return "L[%%%s.alloca#%d]" % (f.name, r[1])
         elif r[0] == "val":
             inner = self._expr(f, r[1], sup, depth + 1)
             if inner is None:
@@ -238,7 +244,37 @@ class R1(object):
             fl = [s for s in p.steps if s[0] == "f"]
             if fl and p.steps[0] == fl[0]:
                 return ("pf", r[1], fl[0][1])
+        if r[0] == "alloca" and not p.steps:
+            a = f.insts[r[1]]
+            ty = a.d.get("alloc_ty", "")
+            if not ty.startswith("[") and not (ty.startswith("%") and not ty.endswith("*")) and self._simple_alloca(f, a):
+                return ("al", f.name, r[1])
+            return None
+        if r[0] == "val":
+            # field of the current grammar object:  grammar->F
+            fl = [s for s in p.steps if s[0] == "f"]
+            if fl and p.steps[0] == fl[0] and fl[0][1].startswith("grammar."):
+                b = strip_casts(f, r[1])
+                bi = f.insts.get(b["v"]) if b.get("k") == "i" else None
+                if bi is not None and bi.op == "load":
+                    bp = resolve_addr(f, bi.ops[0])
+                    if bp.root == ("g", "grammar") and not bp.steps:
+                        return ("cf", fl[0][1])
         return None
+
+    def _simple_alloca(self, f, a):
+        """a local that is only loaded and stored directly (a flag), never passed by address"""
+        key = (f.name, a.id)
+        if key not in self._simple:
+            ok = True
+            for u in f.uses().get(a.id, []):
+                if u.op == "load":
+                    continue
+                if u.op == "store" and u.ops[1].get("k") == "i" and u.ops[1]["v"] == a.id and not (u.ops[0].get("k") == "i" and u.ops[0]["v"] == a.id):
+                    continue
+                ok = False
+            self._simple[key] = ok
+        return self._simple[key]
 
     def struct_fields(self, g):
         ty = self.m.globals[g]["ty"].lstrip("%")
@@ -248,8 +284,10 @@ class R1(object):
         return ["%s.%s" % (ty, fld["name"]) for fld in st["fields"]]
 
     def map_callee_cell(self, f, call, cell):
-        if cell[0] in ("g", "gf"):
+        if cell[0] in ("g", "gf", "cf"):
             return [cell]
+        if cell[0] == "al":
+            return []
         if cell[0] == "pf":
             k = cell[1]
             if k >= len(call.args):
@@ -260,6 +298,12 @@ class R1(object):
                 return [("gf", p.root[1], cell[2])]
             if p.root[0] == "a" and not p.steps:
                 return [("pf", p.root[1], cell[2])]
+            if cell[2].startswith("grammar.") and a.get("k") == "i":
+                ai = f.insts.get(a["v"])
+                if ai is not None and ai.op == "load":
+                    bp = resolve_addr(f, ai.ops[0])
+                    if bp.root == ("g", "grammar") and not bp.steps:
+                        return [("cf", cell[2])]
             return []
         return []
 
@@ -268,6 +312,8 @@ class R1(object):
             return ("g", c[1])
         if c[0] in ("gf", "pf"):
             return ("fld", c[2])
+        if c[0] == "cf":
+            return ("fld", c[1])
         return None
 
     # -- handler regions ---------------------------------------------------------------------
@@ -289,6 +335,12 @@ class R1(object):
         ue_site = {}
         blocks = f.rblocks()
         hb = self._handler_blocks(f)
+        armed = []
+        for sj in self.p.setjmp_calls(f):
+            h_, n_ = setjmp_regions(f, sj)
+            armed.append((sj, h_, n_))
+        hentry = set(h_ for (_, h_, _) in armed)
+        self._handler_in = {}
         IN = {b.name: None for b in blocks}
         OUT = {b.name: None for b in blocks}   # per-successor states: dict succ -> State
         IN[f.entry.name] = State()
@@ -302,6 +354,18 @@ class R1(object):
             for b in blocks:
                 if b is f.entry:
                     s = State()
+                elif b.name in hentry:
+                    # a handler is entered only by longjmp: meet over the may-throw sites of the armed region
+                    s = self._handler_in.get(b.name)
+                    if s is None:
+                        continue
+                    # the fact established by the `setjmp (..) != 0' branch itself
+                    for pn in b.preds:
+                        t_ = f.bmap[pn].term
+                        if t_ is not None and t_.op == "br" and len(t_.ops) == 3:
+                            g_ = self.guard_of_cond(f, t_.ops[0])
+                            if g_ is not None and t_.ops[1]["v"] != t_.ops[2]["v"]:
+                                s = State(s.W, s.Q, s.A | {g_ if t_.ops[2]["v"] == b.name else neg(g_)}, s.K)
                 else:
                     s = None
                     for pn in b.preds:
@@ -318,8 +382,28 @@ class R1(object):
                     continue
                 IN[b.name] = s
                 cur = [set(s.W), set(s.Q), set(s.A), set(s.K)]
-                in_h = b.name in hb
+                in_h = False
+                regions = [h_ for (_, h_, n_) in armed if f.dominates(n_, b.name)]
                 for i in b.insts:
+                    if regions and i.is_call() and self.p.call_may_throw(f, i):
+                        # state in which the handler may be entered from here: what is written before the
+                        # call, minus the guards the callee may invalidate before it throws
+                        snap = [set(cur[0]), set(cur[1]), set(cur[2]), set(cur[3])]
+                        kl = set()
+                        for t in self.p.call_targets(f, i):
+                            kl |= self.mayw.get(t, set())
+                        self._kill(snap, kl)
+                        # what was known about the value setjmp returned the first time does not hold for the second return
+                        sjkeys = set("%%%s#%d!=0" % (f.name, sj_.id) for (sj_, _, _) in armed)
+                        snap[2] = set(g_ for g_ in snap[2] if g_[0] not in sjkeys)
+                        snap[1] = set(x_ for x_ in snap[1] if x_[1][0] not in sjkeys)
+                        st = State(frozenset(snap[0]), frozenset(snap[1]), frozenset(snap[2]), frozenset(snap[3]))
+                        for h_ in regions:
+                            old = self._handler_in.get(h_)
+                            new = st if old is None else join(old, st)
+                            if old is None or new != old:
+                                self._handler_in[h_] = new
+                                work = True
                     self._transfer(f, i, cur, ue, ue_site, in_h)
                 base = State(frozenset(cur[0]), frozenset(cur[1]), frozenset(cur[2]), frozenset(cur[3]))
                 outs = {}
@@ -443,8 +527,23 @@ class R1(object):
             l = self._loc_of_addr(f, i.ops[1])
             if l is not None:
                 self._kill(cur, {l})
+            if c == ("g", "grammar"):
+                for x in [x for x in cur[0] if x[0] == "cf"]:
+                    cur[0].discard(x)
+                for x in [x for x in cur[1] if x[0][0] == "cf"]:
+                    cur[1].discard(x)
             if c is not None:
                 cur[0].add(c)
+                # a constant stored into a flag is a known guard value
+                k = const_int(i.ops[0])
+                if k is None and i.ops[0].get("k") == "null":
+                    k = 0
+                if k is not None and c[0] in ("al", "g"):
+                    sup = set()
+                    e = self._addr_expr(f, i.ops[1], sup, 0)
+                    if e is not None:
+                        self.guard_support[e + "!=0"] = frozenset(sup)
+                        cur[2].add((e + "!=0", k != 0))
         elif i.is_call():
             tg = self.p.call_targets(f, i)
             if not i.callee:
@@ -553,6 +652,10 @@ def cell_str(c):
         return "%s.%s" % (c[1], c[2].split(".")[-1])
     if c[0] == "cb":
         return "callback-param%d" % c[1]
+    if c[0] == "cf":
+        return "grammar->%s" % c[1].split(".", 1)[1]
+    if c[0] == "al":
+        return "%s.local#%d" % (c[1], c[2])
     return "param%d->%s" % (c[1], c[2])
 
 
@@ -653,8 +756,9 @@ def rule_R1a(ctx, rep, config="c-lib"):
 def rule_R1b(ctx, rep, config="c-lib", entries=None):
     """per-call freshness of all other file-scope state"""
     rep.rule("R1b", "for every API function: no other mutable file-scope variable (scalar, or field of a container global) is upward-exposed, i.e. no call can "
-                    "observe a predecessor call's leftovers; guard-qualified must-writes (`!one_parse_p', `parse_free != NULL', status results) are honoured; "
-                    "reads inside setjmp handlers are judged by R2d; frozen exceptions carry one reason each")
+                    "observe a predecessor call's leftovers; guard-qualified must-writes (`!one_parse_p', `parse_free != NULL', status results, local cleanup flags) "
+                    "are honoured; a setjmp handler is entered with the meet of the states at all may-throw call sites of the armed region (R2d: a handler "
+                    "releases only what is created on every path that can reach it, or what its flag / NULL guard covers); frozen exceptions carry one reason each")
     p = ctx.prog(config)
     r1 = get_r1(ctx, config)
     n = 0
@@ -663,8 +767,10 @@ def rule_R1b(ctx, rep, config="c-lib", entries=None):
         exp = r1.exposed(a)
         bad = {}
         for c, w in exp.items():
-            if c[0] == "pf":
+            if c[0] in ("pf", "al"):
                 continue
+            if c[0] == "cf" and a != "yaep_create_grammar":
+                continue     # fields of an existing object are its persistent inputs
             if c[0] == "g" and c[1] in CONTEXT_GLOBALS:
                 continue
             nm = c[1]
@@ -674,12 +780,13 @@ def rule_R1b(ctx, rep, config="c-lib", entries=None):
         n += 1
         if bad:
             for c, w in sorted(bad.items()):
-                rep.violation("R1b", "%s/%s" % (a, cell_str(c)),
-                              "`%s' may be read in %s before this call wrote it: the call sees what an earlier call (possibly on another grammar object) left behind" % (cell_str(c), a),
-                              witness=w, where=p.m.functions[a].where())
+                what = ("`%s' may be read in %s before this call wrote it: the call sees what an earlier call (possibly on another grammar object) left behind" % (cell_str(c), a)
+                        if c[0] != "cf" else
+                        "`%s' of the object being created may be read (by the error exit) before it was initialised: indeterminate memory is finalised" % cell_str(c))
+                rep.violation("R1b", "%s/%s" % (a, cell_str(c)), what, witness=w, where=p.m.functions[a].where())
         else:
             rep.ok("R1b", a, sample={"function": a, "tracked_cells": tracked,
-                                     "exposed_only": sorted(cell_str(c) for c in exp if c[0] != "pf" and not (c[0] == "g" and c[1] in CONTEXT_GLOBALS))})
+                                     "exposed_only": sorted(cell_str(c) for c in exp if c[0] in ("g", "gf") and not (c[0] == "g" and c[1] in CONTEXT_GLOBALS))})
     rep.floor("R1b", "API entry points analysed", n, 3)
     rep.floor("R1b", "tracked file-scope cells", tracked, 120 if config == "c-lib" else 40)
     rep.assume("user callbacks (read_token, syntax_error, parse_alloc, parse_free, read_terminal, read_rule, termcb) do not re-enter yaep and do not write library state")
